@@ -135,6 +135,7 @@ def members():
     for n in ("BinStr", "HexStr", "IntRange", "RealRange", "Bool", "Choice"):
         m[n] = Builtin(n, _noop_domain)
     m["harness"] = Builtin("harness", _decorator_factory)
+    m["property_level"] = Builtin("property_level", _noop_domain)
     m["contract"] = Builtin("contract", _decorator_factory)
     m["assume"] = Builtin("assume", s_assume)
     m["require"] = Builtin("require", s_require)
@@ -153,6 +154,8 @@ def members():
     m["pi_const"] = Builtin("pi_const", lambda E, a, k: BM.pi_value(E))
     m["abstract_int"] = Builtin("abstract_int", s_abstract_int)
     m["AssumptionFailed"] = None
+    from .interp import ClassValue
+    m["Domain"] = ClassValue("Domain", [], {}, "vc.api.Domain")
     for n in ("NATIVE_ABSTRACT", "NATIVE_OPAQUE", "NATIVE_UF"):
         m[n] = SDict({})
     return m
